@@ -45,3 +45,20 @@ def with_fuzz(plan, prop, header, regs, tier, quick_runs, thorough_runs, max_len
         return out
     plan['extra'] = extra
     return plan
+
+
+def sweep_units(prop, header, sweeps, cases, nunits=8, step=12, keep=None, **unit_kw):
+    """Units of vf::Sweep sites (harness/sweep.h). sweeps: (alias, site type with the template argument written E, site name
+    without the range, lo, hi[, suffix]). One registration covers `step` consecutive arguments. keep(reg_text) filters (quick tiers)."""
+    prelude = ''.join('template<int E> using %s = %s;\n' % (sw[0], sw[1]) for sw in sweeps)
+    regs = []
+    for sw in sweeps:
+        alias, body, label, lo, hi = sw[:5]
+        tail = sw[5] if len(sw) > 5 else ''
+        for a in range(lo, hi + 1, step):
+            cnt = min(step, hi + 1 - a)
+            regs.append('vf::Sweep<%s, %d, %d>::reg("%s|%s|%dto%d%s")' % (alias, a, cnt, prop, label, a, a + cnt - 1, tail))
+    if keep:
+        regs = [r for i, r in enumerate(regs) if keep(i, r)]
+    return [Unit('%s-sweep-%d' % (prop, i), 'gxx', header, part, rc_cases=cases, enum_max=0, chunk=4, prelude=prelude, **unit_kw)
+            for i, part in enumerate(split(regs, nunits)) if part]
